@@ -383,6 +383,7 @@ class CaseReport:
         self.wall = 0.0
         self.outcomes = {}
         self.trivial = 0
+        self.nondet_skipped = 0
         self.functions = {}
 
 
@@ -422,7 +423,12 @@ def _run_case(case, rep, timeout_ms, cross, validate, deadline):
         # properties are built outside a symbolic run: forcing a symbol there is a harness bug
         props = case.props(env, inp, oc)
         # reachability twin: the path (with assumptions) is satisfiable; its model validates the engine
-        r, model, _ = solve.check(ctxf, timeout_ms, st)
+        hints = [n[1] for n in pr.notes if isinstance(n, tuple) and n[0] == "distinct"]
+        r, model = "unknown", None
+        if hints:  # prefer a witness without ties between sorted keys
+            r, model, _ = solve.check(ctxf + hints, min(timeout_ms, 2000), st)
+        if r != "sat":
+            r, model, _ = solve.check(ctxf, timeout_ms, st)
         if r == "sat":
             rep.reach_ok += 1
         elif r == "unsat":
@@ -470,7 +476,12 @@ def _run_case(case, rep, timeout_ms, cross, validate, deadline):
             else:
                 _handle_sat(case, rep, env, name, m, pi, pr)
         if validate and model is not None:
+            nm = len(rep.validation_mismatch)
             _validate(case, rep, env, inp, oc, props, model, pi)
+            if hints and len(rep.validation_mismatch) > nm and solve.check(ctxf + hints, 2000, st)[0] != "sat":
+                # the path took one of several admissible orders of equal values; NumPy took another
+                del rep.validation_mismatch[nm:]
+                rep.nondet_skipped += 1
     # canaries must have been refuted at least once per case
     want = [n for n in case.expect_sat]
     if want and rep.canaries_ok == 0 and not rep.errors:
@@ -758,11 +769,15 @@ def finish_check(prop_id, reports, *, tier, seed, bounds, stubs, assumptions, t0
         errors.append(f"z3 and cvc5 disagree on {st.cvc5_disagree} obligations")
     os.makedirs(os.path.join(VERIF, "evidence"), exist_ok=True)
     os.makedirs(os.path.join(VERIF, "replays"), exist_ok=True)
-    replay_paths = []
-    for i, v in enumerate(violations[:20]):
+    # one replay file per distinct violated obligation class
+    by_key = {}
+    for v in violations:
+        by_key.setdefault(v["key"], v)
+    replay_paths = {}
+    for i, (k, v) in enumerate(list(by_key.items())[:60]):
         rp = os.path.join(VERIF, "replays", f"{prop_id}_{i}.json")
-        json.dump({"property": prop_id, **v, "replay_cmd": f"./check {prop_id} --replay {rp}"}, open(rp, "w"), indent=1)
-        replay_paths.append(rp)
+        json.dump(jsonable({"property": prop_id, **v, "replay_cmd": f"./check {prop_id} --replay {rp}"}), open(rp, "w"), indent=1)
+        replay_paths[k] = rp
     files = sorted({k.split(":")[0] for k in funcs})
     coverage = {
         "states": tot["paths"],
@@ -820,13 +835,10 @@ def finish_check(prop_id, reports, *, tier, seed, bounds, stubs, assumptions, t0
           f"mismatches={tot['mismatches']} canaries={tot['canaries_ok']} solver_s={coverage['solver']['solver_time_s']} "
           f"wall_s={ev['wall_s']}")
     if violations:
-        seen = set()
-        for v, rp in zip(violations, replay_paths):
-            if v["key"] in seen:
-                continue
-            seen.add(v["key"])
+        for k, rp in replay_paths.items():
+            v = by_key[k]
             print(f"VIOLATION property={prop_id} replay={rp}")
-            print(f"  {v['key']}: case {v['case']} outcome {v['outcome']}")
+            print(f"  {k}: case {v['case']} outcome {v['outcome']} ({sum(1 for x in violations if x['key'] == k)} counterexamples)")
         return 1
     if errors or nonrepro or tot["unknown"]:
         for e in errors[:10]:
